@@ -85,13 +85,29 @@ impl VF for SymF {
     }
     fn accept<T, E>(f: impl FnOnce() -> Result<T, E>) -> (bool, Vec<(Op, Op)>) {
         let saved: Vec<(Op, Op)> = crate::with(|a| core::mem::take(&mut a.recorded));
+        // restored on unwind too (a caller may catch a panic of the verifier under test)
+        struct Restore(Option<(EqMode, bool, Vec<(Op, Op)>)>);
+        impl Restore {
+            fn finish(&mut self) -> Vec<(Op, Op)> {
+                let (m, p, saved) = self.0.take().unwrap();
+                crate::set_placeholders(p);
+                crate::set_mode(m);
+                crate::with(|a| core::mem::replace(&mut a.recorded, saved))
+            }
+        }
+        impl Drop for Restore {
+            fn drop(&mut self) {
+                if self.0.is_some() {
+                    self.finish();
+                }
+            }
+        }
         let old = crate::set_mode(EqMode::Record);
         // Hasher::hash_or_noop round-trips short leaves through to_canonical_u64/from_canonical_u64
         let oldp = crate::set_placeholders(true);
+        let mut g = Restore(Some((old, oldp, saved)));
         let r = f();
-        crate::set_placeholders(oldp);
-        crate::set_mode(old);
-        let atoms = crate::with(|a| core::mem::replace(&mut a.recorded, saved));
+        let atoms = g.finish();
         (r.is_ok(), atoms)
     }
     fn cut(vals: &[Self], prefix: &str) -> (Vec<Self>, Vec<Self>) {
